@@ -23,7 +23,7 @@ def main(argv):
     if "timeout" in r or "harness_error" in r:
         print(json.dumps({"infrastructure": r}))
         return 2
-    v = sc.judge(case, r, sc.run_sandbox(case))
+    v = sc.judge(case, r, sc.run_sandbox_guarded(case, 30))
     print(json.dumps(v[0] if v else None, sort_keys=True))
     return 0
 
